@@ -1009,6 +1009,7 @@ ConfigResult RunConfig(const History& H, const Config& cfg, uint64_t seed, e7::A
     (void)cpus;
     TestOpts opts;
     opts.extra_args = {"-nodebuglogfile", "-nodebug"};
+    opts.min_validation_cache = true; // the fixture's own (discarded) ChainstateManager: no 32 MiB caches to initialise
     auto setup = std::make_unique<ChainTestingSetup>(ChainType::REGTEST, opts);
     ChainTestingSetup* s = setup.get();
     s->m_node.chainman.reset();
@@ -1022,6 +1023,10 @@ ConfigResult RunConfig(const History& H, const Config& cfg, uint64_t seed, e7::A
             .worker_threads_num = cfg.script_threads,
             .prevoutfetch_threads_num = cfg.fetch_threads,
         };
+        // small signature / script-execution caches: block connection does not store into them, and initialising the
+        // default 32 MiB for every node dominates the run time under ThreadSanitizer
+        chainman_opts.script_execution_cache_bytes = 1 << 18;
+        chainman_opts.signature_cache_bytes = 1 << 18;
         const node::BlockManager::Options blockman_opts{
             .chainparams = chainman_opts.chainparams,
             .blocks_dir = s->m_args.GetBlocksDirPath(),
